@@ -21,6 +21,7 @@ def hole_read(w, start, end, var="subterm"):
     n = 0
     for k in range(start, end + 1):
         new = re.sub(r"\{ (\w+)\.borrow\(\)\.clone\(\) \}", r"hole_content(\1)", w.lines[k])
+        new = re.sub(r"(?<![\w.])(\w+)\.borrow\(\)\.clone\(\)", r"hole_content(\1)", new)
         if new != w.lines[k]:
             w.log["rewrites"].append({"rule": "R9-hole-read", "site": w._where(k), "before": w.lines[k], "after": new, "note": "RefCell read + clone as a stub with the assumed frozen-content contract"})
             w.lines[k] = new
@@ -214,10 +215,9 @@ def weave_normalize(w, sc):
     w.body_first(sc["normalize_weak_head.first"])
     # hole arm: R10 + R9
     i, j = arm(w, r"^        Unifier\(subterm, subterm_shift\) => \{$")
-    k = w.find(r"^\s*\{ subterm\.borrow\(\)\.clone\(\) \}\.map_or_else\($", 1, i)
-    if k > j:
-        raise LostAnchor(f"{w._where(i)}: hole arm of normalize_weak_head not in the expected shape")
-    generic_map_or_else(w, k)
+    ks = [q for q in range(i, j + 1) if re.match(r"^\s*\{ subterm\.borrow\(\)\.clone\(\) \}\.map_or_else\($", w.lines[q])]
+    if ks:
+        generic_map_or_else(w, ks[0])      # (an arm that is already written as a `match` needs no R10)
     i, j = arm(w, r"^        Unifier\(subterm, subterm_shift\) => \{$")
     if hole_read(w, i, j) != 1:
         raise LostAnchor(f"{w._where(i)}: expected exactly one hole read in the hole arm")
@@ -226,9 +226,9 @@ def weave_normalize(w, sc):
     U.rewrite_bigint_ops(w)
     # Quotient: R10 on checked_div(..).map_or_else
     i, j = arm(w, r"^        Quotient\(\w+, \w+\) => \{$")
-    k = w.find(r"^\s*\w+\.checked_div\(\w+\)\.map_or_else\($", 1, i)
-    if k < j:
-        generic_map_or_else(w, k)
+    ks = [q for q in range(i, j + 1) if re.match(r"^\s*\w+\.checked_div\(\w+\)\.map_or_else\($", w.lines[q])]
+    if ks:
+        generic_map_or_else(w, ks[0])
     # application
     i, j = arm(w, r"^        Application\(applicand, argument\) => \{$")
     locs = normalized_locals(w, i, j)
@@ -269,7 +269,7 @@ def weave_normalize(w, sc):
     insert_at(w, k + 1, sc["normalize_weak_head.let.body.post"], anchor="after the body is substituted")
     insert_at(w, k, sc["normalize_weak_head.let.body.pre"], anchor="before the body is substituted")
     # the in-place substitution loop
-    k = w.find(r"^\s*for \(\w+, \w+, \w+\) in definitions\.iter_mut\(\)\.skip\(i\) \{$", 1, i_for)
+    k = w.find(r"^\s*for \(\w+, \w+, \w+\) in definitions\.iter_mut\(\)\.skip\(\w+\) \{$", 1, i_for)
     itermut_skip_to_index_loop(w, k, sc)
     # the unfolding
     U.hoist_argument(w, r"^\s*let unfolded_definition = open\($", r"^\s*&Term \{$", "inserted", sc["normalize_weak_head.let.inserted.post"])
